@@ -64,16 +64,16 @@ func MakeContent(kind string, n int, seed uint64) []byte {
 
 // Segmentations of the writes.
 const (
-	SegOne       = "one"        // a single Write
-	SegRandom    = "random"     // random lengths 0..2.5 chunks
-	SegSmall     = "small"      // random lengths 0..300 (short contents) incl. empty writes
-	SegByte      = "byte"       // 1-byte writes (short contents)
-	SegAligned   = "aligned"    // chunk-sized writes
-	SegMiB       = "mib"        // 1 MiB writes
-	SegAround    = "around"     // lengths CS-1, CS+1, CS, 1 in random order
-	SegFeed      = "feed"       // builder.FeedPipeline, reader returns short reads
-	SegFeedEOF   = "feed-eof"   // same, last read returns its bytes together with io.EOF
-	SegChunkPipe = "chunkpipe"  // random writes into file.ChunkPipe, its read side fed to FeedPipeline
+	SegOne       = "one"       // a single Write
+	SegRandom    = "random"    // random lengths 0..2.5 chunks
+	SegSmall     = "small"     // random lengths 0..300 (short contents) incl. empty writes
+	SegByte      = "byte"      // 1-byte writes (short contents)
+	SegAligned   = "aligned"   // chunk-sized writes
+	SegMiB       = "mib"       // 1 MiB writes
+	SegAround    = "around"    // lengths CS-1, CS+1, CS, 1 in random order
+	SegFeed      = "feed"      // builder.FeedPipeline, reader returns short reads
+	SegFeedEOF   = "feed-eof"  // same, last read returns its bytes together with io.EOF
+	SegChunkPipe = "chunkpipe" // random writes into file.ChunkPipe, its read side fed to FeedPipeline
 )
 
 // Cuts returns write lengths summing to n.
@@ -115,7 +115,7 @@ func Cuts(seg string, n int, rng *rand.Rand) []int {
 		for left > 0 {
 			switch rng.Intn(6) {
 			case 0:
-				add(rng.Intn(64))
+				add(rng.Intn(8))
 			case 1:
 				add(rng.Intn(5000))
 			case 2:
@@ -137,15 +137,21 @@ type cutReader struct {
 	cuts    []int
 	withEOF bool
 	reads   int
+	// EmptyReads counts the (0, nil) reads handed out
+	EmptyReads int
 }
 
 func (r *cutReader) Read(p []byte) (int, error) {
 	r.reads++
-	for len(r.cuts) > 0 && r.cuts[0] == 0 {
-		r.cuts = r.cuts[1:]
-	}
 	if len(r.c) == 0 {
 		return 0, io.EOF
+	}
+	if len(r.cuts) > 0 && r.cuts[0] == 0 {
+		// an empty piece: a read of zero bytes without error in the middle of the stream
+		// (allowed by io.Reader; the caller has to read on)
+		r.cuts = r.cuts[1:]
+		r.EmptyReads++
+		return 0, nil
 	}
 	l := len(r.c)
 	if len(r.cuts) > 0 {
